@@ -373,7 +373,7 @@ def run_c07(ctx):
     build_harness(ctx)
     quick = ctx.tier == 'quick'
     rnd_py = random.Random(ctx.seed)
-    model_check(ctx, 'MC_Demux', 'Demux_c02_psi.cfg')        # the per-PID structure of the design (one accumulator per PID; pm is the only shared state)
+    model_check(ctx, 'MC_Demux', 'Demux_c07.cfg')            # inserted null / adaptation-only / transport-error packets leave every PID's deliveries unchanged
     pats = gen_tlc(ctx, 'MC_Merge', 'Merge_quick.cfg' if quick else 'Merge_deep.cfg', tag='MRG')
     by_counts = {}
     for m in pats:
